@@ -165,6 +165,33 @@ def run (ctx):
   good = any('_expire_links' in norm(c) and norm(kwarg(c, 'recurring', 2)) == 'True' for c in tm)
   ctx.ob('R-AGREE', disc.qual, "expiry runs on a recurring timer", good, norm(tm[0]) if tm else "no timer", disc, 'D1')
 
+  # "is this a host-facing port" (the spanning tree keeps flooding on such ports): answered from the adjacency table, or from
+  # state that is kept in step with it.  Two directed links share both their end ports, so state that forgets a port whenever
+  # *one* link on it is removed is out of step as soon as one direction of a link expires.
+  iep = disc.methods.get('is_edge_port')
+  if iep is not None:
+    ctx.analysed(iep)
+    reads = set(x.attr for x in ast.walk(iep.node) if isinstance(x, ast.Attribute) and norm(x.value) == 'self' and isinstance(x.ctx, ast.Load))
+    if 'adjacency' in reads:
+      ctx.ob('R-OWN', iep, "host-facing ports are determined from the adjacency table", True, "reads self.adjacency", iep, 'D3')
+    else:
+      verdict = None
+      for X in sorted(reads):
+        for f_ in disc.methods.values():
+          gf_ = q.cfg_of(f_)
+          for n in gf_.nodes:
+            for c in q.node_calls(n):
+              if call_name(c) in ('difference_update', 'discard', 'remove', 'pop', 'clear') and norm(c.func.value) == 'self.' + X:
+                fs = q.fact_strs(gf_, n)
+                if not any('adjacency' in f2 for f2 in fs):
+                  verdict = (X, f_, c)
+      if verdict:
+        X, f_, c = verdict
+        ctx.bad('R-OWN', iep, "host-facing ports are determined from the adjacency table",
+                "is_edge_port answers from self.%s, and %s shrinks it with `%s` for every removed link without looking at the links that remain: the two directions of a link (and parallel links) share their end ports, "
+                "so when one direction times out the ports are reported as host-facing while the other direction is still in the adjacency - the spanning tree re-enables flooding on an inter-switch port" % (X, f_.name, norm(c)[:50]), (dmod, c), 'D3')
+      else:
+        ctx.undecided('R-OWN', iep, "host-facing ports are determined from the adjacency table", "answers from %s; its maintenance is not recognised" % sorted(reads), iep, 'D3')
   # ---- D2 writer / reader -------------------------------------------------------------------------
   wsrc = {}
   for t, v, st, k in q.stores_in(mk.node):
@@ -266,6 +293,25 @@ def run (ctx):
   ut = smod.funcs.get('_update_tree'); cst = smod.funcs.get('_calc_spanning_tree')
   if ut is None or cst is None: raise AnalysisError("spanning_tree._update_tree/_calc_spanning_tree vanished")
   ctx.analysed(ut); ctx.analysed(cst)
+  # the remembered flood bits mirror what was last sent to a switch; a switch that connects (again) starts with flooding enabled on
+  # every port, so what is remembered about it must be forgotten in a handler of its connection going up or down, keyed by the event's dpid
+  life = [f_ for nm_, f_ in smod.funcs.items() if nm_ in ('_handle_ConnectionUp', '_handle_ConnectionDown', '_handle_openflow_ConnectionUp', '_handle_openflow_ConnectionDown')]
+  resets = []
+  for f_ in life:
+    ctx.analysed(f_); gl = q.cfg_of(f_); ev = f_.params[0] if f_.params else 'event'
+    for n in gl.nodes:
+      hit = False
+      for c in q.node_calls(n):
+        if call_name(c) == 'clear' and norm(c.func.value) in ('_prev[%s.dpid]' % ev, '_prev[%s.connection.dpid]' % ev): hit = True
+        if call_name(c) == 'pop' and norm(c.func.value) == '_prev' and c.args and norm(c.args[0]) in ('%s.dpid' % ev, '%s.connection.dpid' % ev): hit = True
+      if isinstance(n.ast, ast.Delete) and any(norm(t) in ('_prev[%s.dpid]' % ev,) for t in n.ast.targets): hit = True
+      if hit: resets.append((f_, gl, n))
+  uncond = [(f_, n) for f_, gl, n in resets if gl.postdominates([n], gl.entry)]
+  if any(nm_ in smod.funcs for nm_ in ('_handle_ConnectionUp', '_handle_openflow_ConnectionUp')):
+    ctx.ob('R-EFFECT', smod.short + ':_prev', "what is remembered about a switch's flood bits is forgotten when its connection comes up or goes down", bool(uncond),
+           "%s: `%s` on every path" % (uncond[0][0].name, uncond[0][1].text(40)) if uncond else
+           "no connection-up/down handler forgets _prev[dpid]%s: when a switch reconnects with all ports flooding, port-mods that would disable flooding on its non-tree ports are skipped as 'already sent' - a flooded frame loops"
+           % (" (a reset elsewhere only runs for switches still present in the computed tree)" if any('_prev' in norm(x) and call_name(x) in ('pop', 'clear') for x in calls_in(ut.node)) else ""), life[0] if life else ut, 'D3')
   g3 = q.cfg_of(ut)
   # decided by evaluation over (port in tree?, edge port?): the NO_FLOOD bit sent must be clear iff the port is a tree
   # port or an edge port; the port-mod is reached exactly when the remembered bit differs
